@@ -505,7 +505,13 @@ class RegionGeomToO:
         return times
 
     def get_beta_angle(self, nadir_angle):
-        return np.arccos(((self.core_alt) / self.earth_radius) * np.sin(nadir_angle))
+        # (the argument is 1 at the horizon and rounds above it for some altitudes; it is
+        # below -1 for a limb angle that covers more than the whole disc: no limit)
+        return np.arccos(
+            np.clip(
+                ((self.core_alt) / self.earth_radius) * np.sin(nadir_angle), -1.0, 1.0
+            )
+        )
 
     def get_path_length(self, beta, nadir_angle):
         return self.core_alt * np.cos(nadir_angle + beta) / np.cos(beta)
